@@ -6,7 +6,7 @@ From Coq Require Import Strings.Byte NArith ZArith List.
 From Coq Require Import Strings.String.
 Import ListNotations.
 Local Open Scope list_scope.
-From LLIR Require Import Lib.Bytes Lib.Radix Model.Natsort Model.Assemble Model.Writer Gen.Enums Proofs.EnumProofs Model.IntLit Model.Enc Model.Types Model.TypeString.
+From LLIR Require Import Lib.Bytes Lib.Radix Model.Natsort Model.Assemble Model.Writer Gen.Enums Proofs.EnumProofs Model.IntLit Model.Enc Model.Types Model.TypeString Model.Gep.
 
 Definition byte_of_N_total (n : N) : byte := match Byte.of_N n with Some b => b | None => x00 end.
 (* C19: run the chunks against a writer failing after k bytes: (size, failed?, delivered, calls) *)
@@ -53,6 +53,27 @@ Definition c11_dec_label (n : bytes) := c11_ident (decode_label (label_name n)).
 Definition c11_dec_type (n : bytes) := decode_type (type_name n).
 Definition c11_dec_comdat (n : bytes) := decode_comdat (comdat_name n).
 Definition c11_dec_metadata (n : bytes) := match metadata_name n with Some t => decode_metadata_name t | None => None end.
+(* C07 *)
+Definition gep_env (l : list (bytes * list ty)) : Gep.env :=
+  fun n => match find (fun p => Lib.Bytes.bytes_eqb (fst p) n) l with Some p => Some (snd p) | None => None end.
+Definition gep_out (o : Gep.outcome ty) : option ty := match o with Gep.Ok t => Some t | Gep.Panic => None end.
+Fixpoint gep_all (l : list (Gep.outcome index)) : option (list index) :=
+  match l with
+  | nil => Some nil
+  | Gep.Ok i :: r => match gep_all r with Some r' => Some (i :: r') | None => None end
+  | Gep.Panic :: _ => None
+  end.
+Definition gep_result (bodies : list (bytes * list ty)) (elem src : ty) (idxs : list index) : option ty :=
+  gep_out (result_type (gep_env bodies) elem src idxs).
+Definition gep_via (cls : iform -> Gep.outcome index) (bodies : list (bytes * list ty)) (elem src : ty) (fs : list iform) : option ty :=
+  match gep_all (map cls fs) with
+  | Some idxs => gep_out (result_type (gep_env bodies) elem src idxs)
+  | None => None
+  end.
+Definition gep_inst := gep_via classify_ir_inst.
+Definition gep_parse := gep_via classify_asm_inst.
+Definition gep_expr := gep_via (fun f => match f with IConst c => classify_ir_expr c | IValue _ => Gep.Panic end).
+Definition mk_index (h : bool) (v : Z) (l : N) : index := {| has_val := h; val := v; vector_len := l |}.
 Definition sort_ids (l : list Z) : list Z := isort Z.ltb l.
 
 Extraction "model.ml" byte_of_N_total Byte.to_N
@@ -60,4 +81,5 @@ Extraction "model.ml" byte_of_N_total Byte.to_N
   writeto_fail_after enum_str enum_from cc_read flagset_value c09_parse c09_ident
   Enc.global_name Enc.local_name Enc.label_name Enc.type_name Enc.comdat_name Enc.metadata_name Enc.escape_ident Enc.escape_string Enc.quote Enc.unescape
   Enc.global_id Enc.local_id Enc.label_id c11_dec_global c11_dec_local c11_dec_label c11_dec_type c11_dec_comdat c11_dec_metadata
-  TypeString.ty_string TypeString.equal_go.
+  TypeString.ty_string TypeString.equal_go
+  gep_result gep_inst gep_parse gep_expr mk_index.
